@@ -89,3 +89,9 @@ Definition d1 : db :=
 Example C16_example_rollback :
   exec_batch d1 [([UpdatePromise (mkUP "a" 2 [] "" None 1); CompleteTasks "a" 1; CreateTasks "a" 1; DeleteCallbacks "a"], [])] = None.
 Proof. vm_compute. reflexivity. Qed.
+
+(* the SQL text the model was written against is the text in the source (regenerated on every run) *)
+From RV Require Import Gen.Sql Spec.SqlRef.
+Theorem C16_sqlite_statements_are_the_reference : sqlite_stmts = ref_sqlite_stmts /\ sqlite_calls = ref_sqlite_calls.
+Proof. vm_compute. split; reflexivity. Qed.
+Print Assumptions C16_sqlite_statements_are_the_reference.
